@@ -63,3 +63,141 @@ theorem lLoad_spec {s : St} (ok : StoreOK s) :
       rw [hfacts id]; exact ok.mirror id
     · show ((s.store.map (fun p => (p.1, unObj p.2))).map (·.1)).Nodup
       rw [List.map_map]; exact ok.storeNodup
+
+/-! ## list-level mirror, and reload of a linear state is the identity -/
+
+theorem amErase_map_obj (m : List (String × Obj)) (k : String) :
+    amErase (m.map (fun p => (p.1, J.obj p.2))) k = (amErase m k).map (fun p => (p.1, J.obj p.2)) := by
+  unfold amErase
+  rw [List.filter_map]
+  rfl
+
+theorem amSet_map_obj (m : List (String × Obj)) (k : String) (v : Obj) :
+    amSet (m.map (fun p => (p.1, J.obj p.2))) k (.obj v) = (amSet m k v).map (fun p => (p.1, J.obj p.2)) := by
+  unfold amSet
+  have hany : ((m.map (fun p => (p.1, J.obj p.2))).any (fun p => p.1 == k)) = m.any (fun p => p.1 == k) := by
+    rw [List.any_map]; rfl
+  rw [hany]
+  cases m.any (fun p => p.1 == k)
+  · simp
+  · simp only [if_true, List.map_map]
+    apply List.map_congr_left
+    intro p _
+    by_cases h : p.1 = k <;> simp [h]
+
+theorem storeEq_stRel : StRel (fun s s' => StoreEq s → StoreEq s') where
+  refl := fun _ h => h
+  trans := fun h1 h2 h => h2 (h1 h)
+  idx := fun _ _ _ h => h
+  erase := fun s id h => by
+    unfold StoreEq at h ⊢
+    simp only [h, amErase_map_obj]
+
+theorem linIdx_stRelL : StRelL (fun s s' => LinIdx s → LinIdx s') where
+  refl := fun _ h => h
+  trans := fun h1 h2 h => h2 (h1 h)
+  erase := fun _ _ h => h
+
+theorem St.add_storeEq {s : St} (h : StoreEq s) (given : String) (x : Obj) (now : Int) :
+    StoreEq (s.add given x now).1 := by
+  cases hh : s.add given x now with
+  | mk s1 r =>
+    have sp := St.add_spec hh
+    cases r with
+    | error e => unfold StoreEq at h ⊢; rw [sp.1, sp.2.1]; exact h
+    | ok id =>
+      obtain ⟨m, x', _, hf, hs, _⟩ := sp
+      unfold StoreEq at h ⊢
+      simp only [hf, hs, h, amSet_map_obj]
+
+theorem St.lAdd_linIdx {s : St} (h : LinIdx s) (given : String) (x : Obj) (now : Int) :
+    LinIdx (s.lAdd given x now).1 := by
+  unfold St.lAdd
+  cases prepareFact given s.freshId x now with
+  | error e => exact h
+  | ok p =>
+    obtain ⟨id, m, x'⟩ := p
+    simp only []
+    split <;> exact h
+
+theorem St.stepOp_storeEq {s : St} (h : StoreEq s) (op : StOp) : StoreEq (s.stepOp op).1 := by
+  cases op with
+  | add g x now => exact St.add_storeEq h g x now
+  | rem id now =>
+    show StoreEq (s.rem id now).1
+    unfold St.rem
+    cases s.kind
+    · exact irem_rel storeEq_stRel _ _ _ _ h
+    · exact lrem_rel storeEq_stRel.toStRelL _ _ _ _ h
+  | get id now =>
+    show StoreEq (s.get id now).1
+    unfold St.get
+    cases s.kind
+    · exact iGet_rel storeEq_stRel _ _ _ h
+    · exact lGet_rel storeEq_stRel.toStRelL _ _ _ h
+  | search p now =>
+    show StoreEq (s.search p now).1
+    unfold St.search
+    cases s.kind
+    · exact isearch_rel storeEq_stRel _ _ _ _ h
+    · exact lsearch_rel storeEq_stRel.toStRelL _ _ _ _ h
+  | findRules ev now =>
+    show StoreEq (s.findRules ev now).1
+    unfold St.findRules
+    cases s.kind
+    · exact iFindRules_rel storeEq_stRel _ _ _ h
+    · exact lFindRules_rel storeEq_stRel.toStRelL _ _ _ h
+  | clear => rfl
+
+theorem St.stepOp_linIdx {s : St} (h : LinIdx s) (op : StOp) : LinIdx (s.stepOp op).1 := by
+  have hk := h.1
+  cases op with
+  | add g x now =>
+    show LinIdx (s.add g x now).1
+    unfold St.add; rw [hk]; exact St.lAdd_linIdx h g x now
+  | rem id now =>
+    show LinIdx (s.rem id now).1
+    unfold St.rem; rw [hk]; exact lrem_rel linIdx_stRelL _ _ _ _ h
+  | get id now =>
+    show LinIdx (s.get id now).1
+    unfold St.get; rw [hk]; exact lGet_rel linIdx_stRelL _ _ _ h
+  | search p now =>
+    show LinIdx (s.search p now).1
+    unfold St.search; rw [hk]; exact lsearch_rel linIdx_stRelL _ _ _ _ h
+  | findRules ev now =>
+    show LinIdx (s.findRules ev now).1
+    unfold St.findRules; rw [hk]; exact lFindRules_rel linIdx_stRelL _ _ _ h
+  | clear => exact ⟨hk, rfl, rfl⟩
+
+theorem St.runOps_storeEq (ops : List StOp) : ∀ {s : St}, StoreEq s → StoreEq (s.runOps ops) := by
+  induction ops with
+  | nil => intro s h; exact h
+  | cons op rest ih => intro s h; exact ih (St.stepOp_storeEq h op)
+
+theorem St.runOps_linIdx (ops : List StOp) : ∀ {s : St}, LinIdx s → LinIdx (s.runOps ops) := by
+  induction ops with
+  | nil => intro s h; exact h
+  | cons op rest ih => intro s h; exact ih (St.stepOp_linIdx h op)
+
+/-- reload of a linear state whose storage is the list image of its facts is the identity -/
+theorem reload_linear_id {s : St} (he : StoreEq s) (hl : LinIdx s) (now : Int) : s.reload now = .ok s := by
+  obtain ⟨hk, hri, hti⟩ := hl
+  have hall : ∀ p ∈ s.store, ∃ o, p.2 = .obj o := by
+    intro p hp
+    rw [he] at hp
+    obtain ⟨q, _, rfl⟩ := List.mem_map.1 hp
+    exact ⟨q.2, rfl⟩
+  have hgo := lLoad_go_eq s.store hall []
+  have hfacts : s.store.map (fun p => (p.1, unObj p.2)) = s.facts := by
+    rw [he, List.map_map]
+    conv => rhs; rw [← List.map_id s.facts]
+    apply List.map_congr_left
+    intro p _; rfl
+  unfold St.reload
+  rw [hk]
+  simp only [St.lLoad, hgo, List.nil_append, hfacts, Except.map]
+  congr 1
+  cases s
+  simp only at hk hri hti
+  subst hk hri hti
+  rfl
